@@ -13,13 +13,13 @@ CHUNK = 8
 RULE = ('Each case builds an input and a transformed copy with the real ska and compares the two `nk --full-info` tables '
         '(no model involved).  Transformations, each alone and all combined: reverse-complement a random non-empty subset of '
         'records (two-strand mode only), permute records, random case mask, re-wrap sequence lines at 1..70 columns, gzip, '
-        'permute the sample files on the command line (columns must be permuted accordingly).  Non-trivial: the base build '
+        'permute the sample files on the command line (columns must be permuted accordingly; also with 20..160 samples and --threads 2..16, the recursive parallel build).  Non-trivial: the base build '
         'has at least one k-mer and the transformation changed the file bytes or argument order; distinct = distinct '
         '(k, mode, input, transformation).')
 ASSUMPTIONS = ['both builds are runs of the same binary; equality of the decoded tables is the oracle',
                'the input generators are those of C01 (record lengths around k, N runs, repeats, palindromes)']
 TRANSFORMS = ['rc', 'perm', 'case', 'wrap', 'gzip', 'sampleperm', 'all']
-REQUIRED = {t: ['tr:' + x for x in TRANSFORMS] for t in ('quick', 'thorough')}
+REQUIRED = {t: ['tr:' + x for x in TRANSFORMS] + ['many_sample_cases'] for t in ('quick', 'thorough')}
 
 
 def builds(tier):
@@ -44,8 +44,11 @@ def plan(tier, seed, rng, scale):
             tr = 'all'
         descs.append({'k': rng.choice(G.ALL_K), 'rc': rcmode, 'tr': tr, 'kind': rng.choice(kinds),
                       'seed': rng.getrandbits(32)})
+    for i in range(int((12 if tier == 'quick' else 120) * scale)):
+        descs.append({'k': rng.choice([9, 15, 31, 33]), 'rc': True, 'tr': 'sampleperm', 'kind': 'many', 'seed': rng.getrandbits(32),
+                      'threads': rng.choice([2, 4, 8, 16])})
     for i, d in enumerate(descs):
-        d['chk'] = (i % 9 == 0)
+        d['chk'] = (i % 9 == 0) and d['kind'] != 'many'
     return descs
 
 
@@ -86,8 +89,19 @@ def transform(rng, samples, tr, rcmode):
 def run_case(desc, ctx):
     res = Result()
     k, rcmode, tr = desc['k'], desc['rc'], desc['tr']
-    samples = c01.gen_records(desc)
-    if desc['kind'] != 'multi' and tr in ('sampleperm', 'all'):
+    if desc['kind'] == 'many':
+        r0 = random.Random(desc['seed'] ^ 0x3a)
+        base = G.rseq(r0, 3 * k)
+        samples = []
+        for _ in range(r0.choice([20, 40, 70, 72, 80, 160])):
+            t = list(base)
+            for _j in range(r0.randint(0, 3)):
+                t[r0.randrange(len(t))] = r0.choice('ACGT')
+            samples.append([''.join(t)])
+        res.count('many_sample_cases')
+    else:
+        samples = c01.gen_records(desc)
+    if desc['kind'] not in ('multi', 'many') and tr in ('sampleperm', 'all'):
         # make it a multi-sample input so that a column permutation exists
         d2 = dict(desc)
         d2['seed'] ^= 0x77
@@ -102,11 +116,12 @@ def run_case(desc, ctx):
     changed = (tsamples != samples) or wrap or gz or perm != list(range(len(samples)))
     for variant in (['rel', 'chk'] if desc.get('chk') else ['rel']):
         b = ctx.bins[variant]
-        p1 = G.ska_build(ctx, ctx.path('a_' + variant), base_files, k, rcmode, binary=b)
+        th = ['--threads', desc['threads']] if desc.get('threads') else []
+        p1 = G.ska_build(ctx, ctx.path('a_' + variant), base_files, k, rcmode, binary=b, extra=th)
         # the transformed build takes its inputs from a file list with explicit names (t<i>), so that the
         # file-name-to-sample-name rule (which does not know .fa.gz) is not part of what is compared
         ctx.write('list.tsv', ''.join('t%d\t%s\n' % (i, t_files[i]) for i in perm))
-        p2 = G.ska_build(ctx, ctx.path('b_' + variant), ['-f', ctx.path('list.tsv')], k, rcmode, binary=b)
+        p2 = G.ska_build(ctx, ctx.path('b_' + variant), ['-f', ctx.path('list.tsv')], k, rcmode, binary=b, extra=th)
         if variant == 'chk':
             res.count('chk_runs')
             if 'overflow' in (p1.stderr + p2.stderr):
